@@ -19,7 +19,8 @@ impl Limb {
     /// Perform saturating multiplication.
     #[inline(always)]
     pub const fn saturating_mul(&self, rhs: Self) -> Self {
-        Limb(self.0.saturating_mul(rhs.0))
+        let (res, carry) = mac(0, self.0, rhs.0, 0);
+        Limb(crate::ConstChoice::from_word_nonzero(carry).select_word(res, crate::Word::MAX))
     }
 
     /// Perform wrapping multiplication, discarding overflow.
